@@ -20,7 +20,8 @@ SPACE = {
     'roadm': ['ad100', 'ad38', 'ad30', 'detailed'],
     'margin': [0, 2],
     'tx_osnr': [40, 30, 100],
-    'pen': ['none', 'cd_mid', 'cd_above', 'cd_first_above_actual', 'pmd_mid', 'pdl_mid', 'pdl_above', 'cd_neg_table', 'cd_steep', 'cd_steep_in'],
+    'pen': ['none', 'cd_mid', 'cd_above', 'cd_first_above_actual', 'pmd_mid', 'pdl_mid', 'pdl_above', 'cd_neg_table', 'cd_steep', 'cd_steep_in',
+            'cd_signed_nonzero'],
     'thr': ['all_pass', 'all_fail', 'edge_pass', 'edge_fail', 'only_low', 'only_high', 'only_mid'],
     'spacing': [50e9, 75e9, 37.5e9, 25e9],
     'bidir': [False, True],
@@ -75,6 +76,9 @@ def penalties(kind, cd, pmd, pdl):
         return [{'chromatic_dispersion': 50 * a, 'penalty_value': 5.0}]
     if kind == 'cd_neg_table':
         return [{'chromatic_dispersion': -3 * a, 'penalty_value': 1.0}, {'chromatic_dispersion': 0.9 * a, 'penalty_value': 0.0}]
+    if kind == 'cd_signed_nonzero':
+        # a table that starts below zero, has no point at 0 and a non-zero penalty around 0: the declared points are all there is
+        return [{'chromatic_dispersion': -1.5 * a, 'penalty_value': 1.5}, {'chromatic_dispersion': 2.5 * a, 'penalty_value': 0.3}]
     if kind == 'cd_steep':
         # steep table around the mean: with a dispersion slope some channels are inside, some above the last breakpoint
         return [{'chromatic_dispersion': 0.99 * a, 'penalty_value': 0}, {'chromatic_dispersion': 1.02 * a, 'penalty_value': 3.0}]
@@ -130,6 +134,29 @@ def library(case, thresholds=None, pen_table=None):
 
 def topology(case):
     return c.build_topology(['A', 'B'], [('A', 'B', line(case['line']), line(case['line'], case['rev'] == 'longer'))])
+
+
+def doc_tables(pen_list):
+    """penalty tables of a mode as the documents define them (docs/json.rst): per impairment the declared points sorted by
+    boundary, with an implicit (0, 0) lower point only when every declared boundary is positive"""
+    out = {}
+    for imp in ('chromatic_dispersion', 'pmd', 'pdl'):
+        pts = sorted((p[imp], p['penalty_value']) for p in (pen_list or []) if imp in p)
+        if not pts:
+            continue
+        if all(x > 0 for x, _ in pts):
+            pts.insert(0, (0, 0))
+        out[imp] = {'up_to_boundary': [x for x, _ in pts], 'penalty_value': [y for _, y in pts]}
+    return out
+
+
+_DOC_PEN = {}
+
+
+def mode_tables(fmt):
+    """tables of the mode `fmt` from the equipment DOCUMENT of the current case (mode number 1 declares none)"""
+    idx = [m['format'] for m in MODES].index(fmt)
+    return doc_tables(_DOC_PEN.get('table')) if idx != 1 else {}
 
 
 def interp_penalty(x, table):
@@ -208,6 +235,7 @@ def run_case(case):
     eq0 = library(case)
     metric = {}
     pen_table = None
+    _DOC_PEN['table'] = None
     if fitting:
         reqs = [rg.request(m['format'], 'trx A', 'trx B', trx_type='T', mode=m['format'], spacing=spacing, bidir=case['bidir'])
                 for m in fitting]
@@ -216,6 +244,7 @@ def run_case(case):
         last = seg[0][-1]['post']
         cd, pmd, pdl = float(np.mean(last['cd'])) * 1e3, float(np.mean(last['pmd'])) * 1e12, float(np.mean(last['pdl']))
         pen_table = penalties(case['pen'], cd, pmd, pdl)
+        _DOC_PEN['table'] = pen_table
         eq1 = library(case, pen_table=pen_table)
         net, equipment, res, rec = plan(case, eq1, reqs)
         seg = segments(rec)
@@ -228,7 +257,7 @@ def run_case(case):
             ms = []
             for d in range(per_req):
                 snap = seg[k * per_req + d][-1]['post']
-                g, p, mt = oracle_rx(case, snap, lib_mode['tx_osnr'], lib_mode['penalties'])
+                g, p, mt = oracle_rx(case, snap, lib_mode['tx_osnr'], mode_tables(lib_mode['format']))
                 ms.append(mt)
             metric[m['format']] = ms
     # ---- thresholds around the measured forward metric (bounded to keep them finite when penalties are infinite)
@@ -361,7 +390,7 @@ def oracle_from_path(case, path, lib_mode):
     g = -10 * np.log10(inv)
     imp = {'chromatic_dispersion': np.array(rx.chromatic_dispersion), 'pmd': np.array(rx.pmd), 'pdl': np.array(rx.pdl)}
     total = np.zeros(n)
-    for k, table in (lib_mode['penalties'] or {}).items():
+    for k, table in mode_tables(lib_mode['format']).items():
         total = total + np.array([interp_penalty(float(x), table) for x in imp[k]])
     return g, total, float(np.min(g - total))
 
